@@ -801,6 +801,10 @@ impl Scratch {
 impl Drop for Scratch {
     fn drop(&mut self) {
         let _ = std::fs::remove_dir_all(&self.dir);
+        // a symlink some engines create next to the directory
+        let mut link = self.dir.clone().into_os_string();
+        link.push("-link");
+        let _ = std::fs::remove_file(std::path::PathBuf::from(link));
     }
 }
 
